@@ -9,6 +9,7 @@ import (
 	"sort"
 	"strings"
 	"testing"
+	"time"
 
 	"github.com/0xReLogic/Helios/internal/adminapi"
 	lbp "github.com/0xReLogic/Helios/internal/loadbalancer"
@@ -30,10 +31,20 @@ type c11Entry struct {
 type c11Model struct {
 	Entries  []c11Entry
 	Strategy string
+	// Lapsed[host]: the backend was ejected and its window has run out since; nothing has looked
+	// at it yet (the expiry is noticed lazily)
+	Lapsed map[string]bool
 }
 
 func (m *c11Model) clone() c11Model {
-	return c11Model{Entries: append([]c11Entry(nil), m.Entries...), Strategy: m.Strategy}
+	c := c11Model{Entries: append([]c11Entry(nil), m.Entries...), Strategy: m.Strategy}
+	for h, v := range m.Lapsed {
+		if c.Lapsed == nil {
+			c.Lapsed = map[string]bool{}
+		}
+		c.Lapsed[h] = v
+	}
+	return c
 }
 
 func (m *c11Model) entriesCanon() string {
@@ -44,7 +55,11 @@ func (m *c11Model) entriesCanon() string {
 func (m *c11Model) canon() string {
 	var l []string
 	for _, e := range m.Entries {
-		l = append(l, fmt.Sprintf("%s@%s/w%d/%v", e.Name, e.Host, e.Weight, e.Healthy))
+		h := fmt.Sprint(e.Healthy)
+		if !e.Healthy && m.Lapsed[e.Host] {
+			h = "window-over" // the listing may still show the flag of the ejection, or not any more
+		}
+		l = append(l, fmt.Sprintf("%s@%s/w%d/%s", e.Name, e.Host, e.Weight, h))
 	}
 	sort.Strings(l)
 	return m.Strategy + "|" + strings.Join(l, ",")
@@ -99,6 +114,8 @@ func (m *c11Model) apply(o c11Op) string {
 		for _, e := range m.Entries {
 			if e.Name != o.Name {
 				keep = append(keep, e)
+			} else {
+				delete(m.Lapsed, e.Host)
 			}
 		}
 		m.Entries = keep
@@ -113,12 +130,31 @@ func (m *c11Model) apply(o c11Op) string {
 		for i := range m.Entries {
 			if m.Entries[i].Name == o.Name {
 				m.Entries[i].Healthy = false
+				delete(m.Lapsed, m.Entries[i].Host)
 			}
 		}
 		return "ok"
 	case "list":
 		return "200 " + m.entriesCanon()
+	case "clock":
+		// every window runs out
+		for _, e := range m.Entries {
+			if !e.Healthy {
+				if m.Lapsed == nil {
+					m.Lapsed = map[string]bool{}
+				}
+				m.Lapsed[e.Host] = true
+			}
+		}
+		return "ok"
 	case "request":
+		// a request lets the windows that have run out lapse
+		for i := range m.Entries {
+			if m.Lapsed[m.Entries[i].Host] {
+				m.Entries[i].Healthy = true
+			}
+		}
+		m.Lapsed = nil
 		for _, e := range m.Entries {
 			if e.Healthy {
 				return "served"
@@ -132,6 +168,8 @@ func (m *c11Model) apply(o c11Op) string {
 type c11Sys struct {
 	k   *lbp.VKit
 	mux http.Handler
+	// lapsed: the model's set of backends whose window has run out unnoticed (see c11Model)
+	lapsed map[string]bool
 }
 
 func newC11Sys(s *vrt.Sched, strategy string) *c11Sys {
@@ -155,7 +193,7 @@ func (y *c11Sys) list() (int, string) {
 	if err := json.Unmarshal([]byte(body), &infos); err != nil {
 		return code, "unparsable: " + body
 	}
-	m := c11Model{Strategy: y.k.StrategyName()}
+	m := c11Model{Strategy: y.k.StrategyName(), Lapsed: y.lapsed}
 	for _, bi := range infos {
 		m.Entries = append(m.Entries, c11Entry{bi.Name, hostOf(bi.Address), bi.Weight, bi.Healthy})
 	}
@@ -180,6 +218,9 @@ func (y *c11Sys) do(o c11Op) string {
 		return fmt.Sprint(code)
 	case "eject":
 		y.k.EjectByName(o.Name)
+		return "ok"
+	case "clock":
+		y.k.Advance(100001 * time.Second)
 		return "ok"
 	case "list":
 		// the listing endpoint does not expose the strategy: only the entries are one atomic observation
@@ -222,6 +263,9 @@ var c11Ops = []c11Op{
 	{Kind: "set", Strategy: " ip_hash"},
 	{Kind: "set", Strategy: "Least_Connections"},
 	{Kind: "set", Strategy: "IP_HASH_CONSISTENT "},
+	// time passes: the windows of ejected backends run out while nothing looks at them (the next
+	// request or listing is the first to notice)
+	{Kind: "clock"},
 }
 
 type c11Inst struct {
@@ -237,7 +281,12 @@ func (in *c11Inst) Step(ev int) *vh.HViol {
 	o := c11Ops[ev]
 	before := in.m.clone()
 	want := in.m.apply(o)
+	in.y.lapsed = in.m.Lapsed
+	if o.Kind == "list" {
+		in.y.lapsed = before.Lapsed
+	}
 	got := in.y.do(o)
+	in.y.lapsed = in.m.Lapsed
 	in.out = got
 	if i := strings.Index(in.out, " "); i > 0 {
 		in.out = in.out[:i]
